@@ -88,13 +88,14 @@ def read_certificate_ok(obs):
 
 def explore_item(text, tail, tally, *, time_limit=None,
                  getters=("short", "long"), fault_fn=None, force_all=False,
-                 max_execs=20000):
+                 max_execs=20000, observe_all=False):
     """Yield (choices, obs) for every optimal class the back end may return at
     the last solve (and at every solve when the read certificate fails)."""
 
     def run(env):
         return lprun.run_solver(text, tail, env, time_limit=time_limit,
-                                getters=getters, fault_fn=fault_fn)
+                                getters=getters, fault_fn=fault_fn,
+                                observe_all=observe_all)
 
     mode = "all" if force_all else "last"
     first = True
@@ -106,6 +107,19 @@ def explore_item(text, tail, tally, *, time_limit=None,
         tally.inc("executions")
         tally.inc("answers", len(obs["solves"] or []))
         tally.mx("max_fanout", max([t[0] for t in trace] or [0]))
+        if obs.get("delegated_solves"):
+            tally.inc("solves_delegated_to_real_cbc", obs["delegated_solves"])
+        if first and not observe_all and obs.get("aux_reads"):
+            # projection certificate failed: a getter read a variable that is
+            # neither a pair variable nor a closure variable, so optimal points
+            # that agree on those may still print differently: restart with
+            # every optimal FULL point as a class of its own
+            tally.inc("projection_certificate_failed_items")
+            yield from explore_item(text, tail, tally, time_limit=time_limit,
+                                    getters=getters, fault_fn=fault_fn,
+                                    force_all=force_all, max_execs=min(max_execs, 3000),
+                                    observe_all=True)
+            return
         if first and mode == "last":
             first = False
             if not read_certificate_ok(obs):
@@ -114,7 +128,7 @@ def explore_item(text, tail, tally, *, time_limit=None,
                 yield from explore_item(text, tail, tally,
                                         time_limit=time_limit, getters=getters,
                                         fault_fn=fault_fn, force_all=True,
-                                        max_execs=max_execs)
+                                        max_execs=max_execs, observe_all=observe_all)
                 return
         yield choices, obs
     if n >= max_execs:
